@@ -1194,7 +1194,7 @@ def real_run(case, layout=None):
                 so = Atom('halted')
             else:
                 try:
-                    with watchdog(3):
+                    with watchdog(30):
                         ev = next(its[i])
                     so = [Atom('ev'), evwire.ev(ev)]
                 except StopIteration:
@@ -1550,7 +1550,7 @@ def run(ctx):
         res.merge(r)
     variant = tuple(code_variant())
     res.notes.append('code variant probed: callCopies=%s extractCopies=%s' % variant)
-    mper = ctx.n(25, 600)
+    mper = ctx.n(40, 600)
     for r in pmap('harness.props.c10', 'model_shard', [(ctx.seed, i, mper, variant) for i in range(nsh)]):
         res.merge(r)
     race_corr(ctx.rng('race'), ctx.n(150, 3000), res)
